@@ -392,6 +392,8 @@ Fixpoint cfg_chans (cfgs : list (Z * Z)) (i : nat) : list (N * nat) :=
   | [] => []
   | (q, b) :: r => (Z.to_N q, if b =? 0 then (1000 + i)%nat else i) :: cfg_chans r (S i)
   end.
+(* NewSimple: capacity of the output and feedback channels = DivideWithMin(H, DefaultCapacityDivider, number of inputs) *)
+Definition simple1_capacity (h n : N) : N := divide_with_min h 10 n.
 Definition run_simple1 (args : list Z) : list Z :=
   match args with
   | kind :: h :: fuel :: r =>
@@ -400,7 +402,7 @@ Definition run_simple1 (args : list Z) : list Z :=
       let '(ops, _) := take_list r1 in
       let cfgs := pairs pb in
       let base := divider_of kind in
-      let ocap := divide_with_min (Z.to_N h) 10 (N.of_nat (length cfgs)) in
+      let ocap := simple1_capacity (Z.to_N h) (N.of_nat (length cfgs)) in
       let s0 := Prio1.init_state (fun _ => base) (cfg_chans cfgs 0) (Z.to_N h) (fun ch => Nat.ltb ch 1000) ocap in
       let '(s1, amb0) := Prio1Sim.sched_run true (fun _ => base) (Z.to_nat fuel) true None false s0 in
       let '(sm0, got0) := autotake1 base (Z.to_nat fuel) (S (S (Z.to_nat fuel))) (Z.to_nat h)
